@@ -2,7 +2,10 @@
 
 package shmipc
 
-import "sync"
+import (
+	"sync"
+	"time"
+)
 
 // Session model SM (sequential): two real Session values A (client) and B (server) over one real
 // buffer manager (create + mapping view) and one real queue pair cross-wired as the queue managers
@@ -39,6 +42,7 @@ type smEnd struct {
 	stream   *Stream
 	model    [64]byte // bytes flushed towards this end, in order
 	sent     int      // flushed towards this end
+	deliv    int      // ... of which delivered to this end's session
 	read     int      // consumed by this end
 	closed   bool     // this end called Close
 	lastSt   uint32
@@ -53,6 +57,8 @@ type smWorld struct {
 	a, b   [2]smEnd // per stream index: the A-side end and the B-side end
 	nstr   int
 	hold   int
+	extra  [4]*Stream
+	nextra int
 }
 
 func smSetup() *smWorld {
@@ -101,6 +107,9 @@ func (w *smWorld) deliverAB() {
 		vfAssert(err == nil && n == len(smWireAB[i]), "SM.events-consumed-by-B")
 	}
 	smWireAB = nil
+	for i := 0; i < w.nstr; i++ {
+		w.b[i].deliv = w.b[i].sent
+	}
 	// streams accepted by the server surface through AcceptStream
 	for len(w.B.acceptCh) > 0 {
 		s, err := w.B.AcceptStream()
@@ -108,7 +117,14 @@ func (w *smWorld) deliverAB() {
 		for i := 0; i < w.nstr; i++ {
 			if w.a[i].stream.id == s.id {
 				vfAssert(w.b[i].stream == nil, "C19.stream-surfaces-exactly-once")
-				w.b[i].stream = s
+				if w.b[i].stream != nil {
+					// the id surfaced a second time (data for a stream the server had already
+					// closed): the application closes what it accepts
+					w.extra[w.nextra] = s
+					w.nextra++
+				} else {
+					w.b[i].stream = s
+				}
 			}
 		}
 	}
@@ -120,6 +136,9 @@ func (w *smWorld) deliverBA() {
 		vfAssert(err == nil && n == len(smWireBA[i]), "SM.events-consumed-by-A")
 	}
 	smWireBA = nil
+	for i := 0; i < w.nstr; i++ {
+		w.a[i].deliv = w.a[i].sent
+	}
 }
 
 // write+flush k bytes from end `from` of stream i to its peer
@@ -166,7 +185,7 @@ func (w *smWorld) recv(i int, atA bool, k int) {
 	if e.stream == nil {
 		vfPrune()
 	}
-	if k > e.sent-e.read && !e.closed && e.stream.state == uint32(streamOpened) {
+	if k > e.deliv-e.read && !e.closed && e.stream.state == uint32(streamOpened) {
 		vfPrune() // the read would block: not part of the sequential space
 	}
 	b, err := e.stream.BufferReader().ReadBytes(k)
@@ -174,9 +193,8 @@ func (w *smWorld) recv(i int, atA bool, k int) {
 		vfAssert(err == ErrStreamClosed || err == ErrEndOfStream, "C10.read-after-local-close-fails")
 		return
 	}
-	avail := e.sent - e.read
+	avail := e.deliv - e.read
 	if k <= avail {
-		// everything flushed before has been delivered by the harness before a read is attempted
 		vfAssert(err == nil && len(b) == k, "C07.read-gets-what-was-flushed")
 		for j := 0; j < k; j++ {
 			vfAssert(b[j] == e.model[e.read+j], "C07.only-own-bytes-in-order")
@@ -320,9 +338,13 @@ func H_SM_history() {
 		}
 	}
 	w.deliverAB()
+	for i := 0; i < w.nextra; i++ {
+		w.extra[i].Close()
+	}
 	w.deliverBA()
 	w.monotone()
 	vfAssert(len(w.A.streams) == 0, "C10.no-active-stream-left-on-A")
+	vfAssert(len(w.B.streams) == 0, "C10.no-active-stream-left-on-B")
 	vfAssert(w.allBack(), "C09.all-shared-memory-back-after-all-streams-closed")
 	vfCover("SM.history.end")
 }
@@ -363,7 +385,9 @@ func H_C15_pool() {
 			}
 			data := vfBytes(3)
 			held[k].BufferWriter().WriteBytes(data)
-			vfAssert(held[k].Flush(false) == nil, "C15.request-flush")
+			if ferr := held[k].Flush(false); ferr != nil {
+				vfAssert(ferr == ErrQueueFull, "C15.request-flush")
+			}
 		case 2:
 			w.deliverAB()
 		case 3: // the server answers on the stream of caller k
@@ -481,4 +505,193 @@ func H_C19_conn() {
 	wgB.Done()
 	wgB.Wait()
 	vfCover("C19.conn.end")
+}
+
+// ---------------------------------------------------------------------------------------------
+// C20 / C10 (callback mode, single schedule): the callback goroutine started by
+// fillDataToReadBuffer runs to completion at the point where it is started (go_policy=inline).
+// This decides the data path of callback mode for every message size and consumption pattern
+// (every byte offered once, in order; nothing left unoffered at quiescence; nothing offered after
+// close; close reports) - NOT the interleavings of arrivals with a running callback.
+
+type c20CB struct {
+	st      *Stream
+	mode    [6]int // per invocation: 0 consume everything, 1 consume one byte, 2 consume everything and Close
+	calls   int
+	seen    [64]byte
+	nseen   int
+	active  int
+	overlap bool
+	local   int
+	remote  int
+	afterClose bool
+	closedInside bool
+}
+
+func (c *c20CB) OnData(r BufferReader) {
+	c.active++
+	if c.active > 1 {
+		c.overlap = true
+	}
+	if c.closedInside {
+		c.afterClose = true
+	}
+	m := 0
+	if c.calls < 6 {
+		m = c.mode[c.calls]
+	}
+	c.calls++
+	n := r.Len()
+	if m == 1 {
+		n = 1
+	}
+	b, err := r.ReadBytes(n)
+	if err == nil {
+		for i := range b {
+			if c.nseen < 64 {
+				c.seen[c.nseen] = b[i]
+				c.nseen++
+			}
+		}
+	}
+	r.ReleasePreviousRead()
+	if m == 2 {
+		c.closedInside = true
+		c.st.Close()
+	}
+	c.active--
+}
+func (c *c20CB) OnLocalClose()  { c.local++ }
+func (c *c20CB) OnRemoteClose() { c.remote++ }
+
+type c20Listen struct{ cb *c20CB }
+
+func (l *c20Listen) OnNewStream(s *Stream) {
+	l.cb.st = s
+	s.SetCallbacks(l.cb)
+}
+func (l *c20Listen) OnShutdown(reason string) {}
+
+func H_C20_inline() {
+	w := smSetup()
+	cb := &c20CB{}
+	w.B.config.listenCallback = &c20Listen{cb: cb}
+	w.open()
+	M := vfShape("messages", 1, 3)
+	for j := 0; j < 6; j++ {
+		cb.mode[j] = 0
+	}
+	ninv := vfShape("patterned", 0, 3)
+	for j := 0; j < ninv; j++ {
+		cb.mode[j] = vfShape("mode", 0, 2)
+	}
+	total := 0
+	closeAt := vfShape("closeAfter", 0, M) // 0: never; k: A closes after its k-th message
+	for m := 0; m < M; m++ {
+		k := []int{1, 3, 9, 13}[vfShape("size", 0, 3)]
+		before := w.b[0].sent
+		w.send(0, true, k)
+		total = w.b[0].sent
+		_ = before
+		if vfShape("deliverNow", 0, 1) == 1 || m == M-1 {
+			w.deliverAB()
+		}
+		if closeAt == m+1 {
+			w.closeEnd(0, true)
+			w.deliverAB()
+		}
+	}
+	w.deliverAB()
+	if cb.st != nil {
+		cb.st.asyncGoroutineWg.Wait()
+	}
+	vfAssert(!cb.overlap, "C20.OnData-never-runs-twice-at-once")
+	vfAssert(cb.nseen <= total, "C20.never-offered-twice")
+	for i := 0; i < 64; i++ {
+		if i < cb.nseen {
+			vfAssert(cb.seen[i] == w.b[0].model[i], "C20.offered-in-order")
+		}
+	}
+	vfAssert(!cb.afterClose, "C20.nothing-offered-after-close")
+	if !cb.closedInside && cb.st != nil {
+		// quiescent, stream not closed by the callback: everything flushed has been offered
+		vfAssert(cb.nseen == total, "C20.every-byte-offered-without-further-traffic")
+		vfAssert(cb.st.recvBuf.Len() == 0 && len(cb.st.pendingData.unread) == 0, "C20.nothing-left-unoffered")
+	}
+	if closeAt > 0 && cb.st != nil && !cb.closedInside {
+		vfAssert(cb.remote == 1 && cb.local == 0, "C10.remote-close-reported-exactly-once")
+	}
+	if cb.closedInside {
+		// Close called from inside the data callback: final, reported once, and the peer learns it
+		vfAssert(cb.st.state == uint32(streamClosed), "C10.close-from-inside-OnData-is-final")
+		w.deliverBA()
+		vfAssert(cb.local+cb.remote == 1, "C10.close-from-inside-OnData-reported-exactly-once")
+		if closeAt == 0 {
+			vfAssert(w.a[0].stream.state != uint32(streamOpened), "C10.close-from-inside-OnData-propagates-to-peer")
+		}
+	}
+	vfCover("C20.inline.end")
+}
+
+// ---------------------------------------------------------------------------------------------
+// C11 (sequential fragment): a blocking call whose releasing event has already happened returns
+// at once with the right result; no call of the explored histories can block forever (every
+// sequential harness carries "noblock" obligations on lock, channel, select and WaitGroup waits).
+// The interleaving of the releasing event with the caller entering its wait, and elapsed time, are
+// NOT covered.
+func H_C11_release() {
+	w := smSetup()
+	w.open()
+	w.send(0, true, 3)
+	w.deliverAB()
+	b := w.b[0].stream
+	vfAssert(b != nil, "C11.setup")
+	want := vfShape("want", 1, 5)
+	release := vfShape("release", 0, 5)
+	switch release {
+	case 0: // enough data arrives
+		if want > 3 {
+			w.send(0, true, 3)
+			w.deliverAB()
+		}
+		got, err := b.BufferReader().ReadBytes(want)
+		vfAssert(err == nil && len(got) == want, "C11.read-returns-when-enough-data-arrived")
+	case 1: // the peer closes: what was flushed is drained, then end of stream
+		w.closeEnd(0, true)
+		w.deliverAB()
+		got, err := b.BufferReader().ReadBytes(want)
+		if want <= 3 {
+			vfAssert(err == nil && len(got) == want, "C11.read-drains-before-eof")
+		} else {
+			vfAssert(err == ErrEndOfStream, "C11.read-returns-eof-after-peer-close")
+		}
+	case 2: // local close
+		b.Close()
+		_, err := b.BufferReader().ReadBytes(want)
+		vfAssert(err == ErrStreamClosed || err == ErrEndOfStream, "C11.read-fails-after-local-close")
+	case 3: // the session dies
+		w.B.dispatcher = &c13Dispatcher{}
+		w.B.Close()
+		_, err := b.BufferReader().ReadBytes(5)
+		vfAssert(err == ErrStreamClosed || err == ErrEndOfStream, "C11.read-returns-when-session-dies")
+		_, aerr := w.B.AcceptStream()
+		vfAssert(aerr != nil, "C11.accept-returns-on-shutdown")
+		vfAssert(w.B.Close() == nil, "C14.session-close-idempotent")
+	case 4: // the deadline passes: time-out error (the timer model fires only if nothing else is ready)
+		b.SetReadDeadline(time.Now())
+		_, err := b.BufferReader().ReadBytes(5)
+		vfAssert(err == ErrTimeout, "C11.read-times-out-at-deadline")
+		// with enough data the deadline is irrelevant
+		got, err2 := b.BufferReader().ReadBytes(2)
+		vfAssert(err2 == nil && len(got) == 2, "C11.no-timeout-when-data-is-there")
+	default: // Flush against a queue that stays full returns
+		a := w.a[0].stream
+		var last error
+		for i := 0; i < 4; i++ {
+			a.BufferWriter().WriteBytes(vfBytes(2))
+			last = a.Flush(false)
+		}
+		vfAssert(last == nil || last == ErrQueueFull, "C11.flush-returns-although-queue-full")
+	}
+	vfCover("C11.release.end")
 }
